@@ -35,7 +35,7 @@ macro_rules! atomic_int {
         }
         let r = self.0.compare_exchange(current, new, success, failure);
         if r.is_ok() {
-          ctx::after_write();
+          ctx::after_write(success);
         }
         r
       }
@@ -48,28 +48,28 @@ macro_rules! atomic_int {
       // one after it
       pub fn store(&self, v: $t, order: Ordering) {
         self.0.store(v, order);
-        ctx::after_write();
+        ctx::after_write(order);
       }
       pub fn swap(&self, v: $t, order: Ordering) -> $t {
         let r = self.0.swap(v, order);
-        ctx::after_write();
+        ctx::after_write(order);
         r
       }
       pub fn compare_exchange(&self, current: $t, new: $t, success: Ordering, failure: Ordering) -> Result<$t, $t> {
         let r = self.0.compare_exchange(current, new, success, failure);
         if r.is_ok() {
-          ctx::after_write();
+          ctx::after_write(success);
         }
         r
       }
       pub fn fetch_and(&self, v: $t, order: Ordering) -> $t {
         let r = self.0.fetch_and(v, order);
-        ctx::after_write();
+        ctx::after_write(order);
         r
       }
       pub fn fetch_or(&self, v: $t, order: Ordering) -> $t {
         let r = self.0.fetch_or(v, order);
-        ctx::after_write();
+        ctx::after_write(order);
         r
       }
     }
@@ -100,12 +100,12 @@ macro_rules! atomic_arith {
     impl $name {
       pub fn fetch_add(&self, v: $t, order: Ordering) -> $t {
         let r = self.0.fetch_add(v, order);
-        ctx::after_write();
+        ctx::after_write(order);
         r
       }
       pub fn fetch_sub(&self, v: $t, order: Ordering) -> $t {
         let r = self.0.fetch_sub(v, order);
-        ctx::after_write();
+        ctx::after_write(order);
         r
       }
     }
@@ -151,7 +151,7 @@ impl<T> AtomicPtr<T> {
     }
     let r = self.0.compare_exchange(current, new, success, failure);
     if r.is_ok() {
-      ctx::after_write();
+      ctx::after_write(success);
     }
     r
   }
@@ -162,17 +162,17 @@ impl<T> AtomicPtr<T> {
 
   pub fn store(&self, v: *mut T, order: Ordering) {
     self.0.store(v, order);
-    ctx::after_write();
+    ctx::after_write(order);
   }
   pub fn swap(&self, v: *mut T, order: Ordering) -> *mut T {
     let r = self.0.swap(v, order);
-    ctx::after_write();
+    ctx::after_write(order);
     r
   }
   pub fn compare_exchange(&self, current: *mut T, new: *mut T, success: Ordering, failure: Ordering) -> Result<*mut T, *mut T> {
     let r = self.0.compare_exchange(current, new, success, failure);
     if r.is_ok() {
-      ctx::after_write();
+      ctx::after_write(success);
     }
     r
   }
